@@ -146,6 +146,17 @@ def oracle(prop, run):
             if last is not None and tm < last:
                 yield ("C03 trace-time-goes-backwards", {"row": r, "previous": last})
             last = tm
+        # events take effect in time order with finishes before placements at one instant: a task that has been
+        # running since before T and completes at T is reported finished before any placement at T is attempted
+        pending_at = {}
+        for r in rows:
+            if len(r) > 4 and r[1] in ("TASK_NOT_READY", "WORKER_NOT_READY"):
+                pending_at.setdefault(int(r[0]), []).append(r)
+            elif len(r) > 7 and r[1] == "TASK_FINISHED" and int(r[0]) in pending_at:
+                ft = tasks.get(r[7])
+                if ft and ft["start"] is not None and ft["start"] < int(r[0]):
+                    yield ("C03 start-deferred-before-a-simultaneous-finish-was-handled", {"deferred": pending_at[int(r[0])][0], "finish": r})
+                    break
         for t, evs in starts.items():
             e = evs[0]
             rts = placed_rt.get(t, [])
